@@ -38,6 +38,31 @@ Restarted(line) == LET pre == CanonStore(line.prestore) ld == CanonModel(line.lo
   F("C11.kept", C11kept(pre, ld)) \cup F("C11.identity", C11identity(pre, ld))
   \cup F("C11.expiry", C11expiry(pre, ld)) \cup F("C11.nothingNew", C11nothingNew(pre, ld))
 
+(* extension (not a listed property): Master._check_pending_start is a step of *)
+(* PendingStart.tla.  Times in ms.                                            *)
+PendingOf(m) == [a \in DOMAIN m.pending |->
+                   [server |-> m.pending[a][1], since |-> m.pending[a][2]]]
+IntegrityExplained(prev, line) ==
+  LET pm == prev.model m == line.model
+      placed == [a \in DOMAIN pm.apps |-> pm.apps[a].server]
+      sstate == [s \in DOMAIN pm.servers |-> pm.servers[s].state]
+      running == SetOf(prev.store.running)
+      now == line.clock
+      ps2 == [a \in DOMAIN placed \cap
+                {x \in DOMAIN placed : /\ x \notin running /\ placed[x] # ""
+                                        /\ placed[x] \in DOMAIN sstate /\ sstate[placed[x]] # "down"} |->
+                IF a \in DOMAIN pm.pending /\ pm.pending[a][1] = placed[a]
+                THEN [server |-> pm.pending[a][1], since |-> pm.pending[a][2]]
+                ELSE [server |-> placed[a], since |-> now]]
+      late == {a \in DOMAIN ps2 : now > ps2[a].since + 300000}
+      frozen == {ps2[a].server : a \in late} \cap DOMAIN sstate
+      marked == {a \in late : placed[a] = ps2[a].server}
+  IN /\ PendingOf(m) = ps2
+     /\ \A s \in DOMAIN m.servers :
+          m.servers[s].state = (IF s \in frozen THEN "frozen" ELSE sstate[s])
+     /\ \A a \in DOMAIN m.apps :
+          m.apps[a].unschedule = (a \in marked \/ (a \in DOMAIN pm.apps /\ pm.apps[a].unschedule))
+
 AfterCrash(prev) == "crashed" \in DOMAIN prev /\ prev.crashed
 
 Verdict(prev, line) ==
@@ -54,6 +79,11 @@ Verdict(prev, line) ==
   ELSE IF line.ev \in {"Cycle", "CrashCycle"} /\ completed
   THEN [fail |-> dup \cup Published(line),
         ex |-> E("C09", C09ex(CanonStore(line.store), CanonModel(line.model)))]
+  ELSE IF line.ev = "Integrity" /\ prev.model.alive
+  THEN [fail |-> dup \cup F("ext.pendingStart", IntegrityExplained(prev, line)),
+        ex |-> E("ext.freeze", \E s \in DOMAIN line.model.servers :
+                      line.model.servers[s].state = "frozen"
+                      /\ s \in DOMAIN prev.model.servers /\ prev.model.servers[s].state # "frozen")]
   ELSE [fail |-> dup, ex |-> E("C10", "crashed" \in DOMAIN line /\ line.crashed)]
 
 Init == t \in DOMAIN Traces /\ i = 1
